@@ -1117,8 +1117,14 @@ def check_unresolved_raises(rep, rule):
 
             def about_u(tt, pol, _):
                 return any(_implies_empty(tt, pol, f) for f in forms)
-            tb = [nid for nid, tt, p in branches if about_u(tt, not p, True)]      # the set is non-empty on this branch
-            eb = [nid for nid, tt, p in branches if about_u(tt, p, True)]          # the set is empty on this branch
+            # (the name may be re-used for the next phase: only tests that see *this* binding count)
+            def binds_u(s2):
+                tg = s2.targets if isinstance(s2, ast.Assign) else ([s2.target] if isinstance(s2, (ast.AugAssign, ast.AnnAssign, ast.For)) else [])
+                return any(isinstance(n_, ast.Name) and n_.id == u for t_ in tg for n_ in ast.walk(t_))
+            rebinds = [s2 for s2 in stmts_of(fi.node) if s2 is not st and binds_u(s2)]
+            live = cfg.reach(cfg.nodes_of(st), avoid=cfg.nodes_of_all(rebinds))
+            tb = [nid for nid, tt, p in branches if nid in live and about_u(tt, not p, True)]      # the set is non-empty on this branch
+            eb = [nid for nid, tt, p in branches if nid in live and about_u(tt, p, True)]          # the set is empty on this branch
             ok = False
             why = 'the unresolved set %s is never tested' % u
             if tb:
@@ -2377,6 +2383,23 @@ def check_inject(rep, r_decl, r_layers):
               'the dict layered as defaults < injectables (%s) is not what the call passes' % v, sinter, fi.node)
 
 
+def _coalesce_literals(ls):
+    """Adjacent literal layers (``d = {'a': x}; d['b'] = y; d.update({'c': z})``) are one literal layer: among themselves a
+    later entry for the same key wins, and nothing else comes between them."""
+    from ..layers import Layer
+    out = []
+    for l in ls:
+        if out and l.kind == 'literal' and out[-1].kind == 'literal' and not l.below and not out[-1].below:
+            prev = out[-1]
+            keys = [k for k in prev.keys if k not in l.keys] + list(l.keys)
+            values = dict(prev.values)
+            values.update(l.values)
+            out[-1] = Layer('literal', '{%s}' % ', '.join(map(str, keys)), prev.node, keys, values)
+        else:
+            out.append(l)
+    return out
+
+
 def check_request_layers(rep, rule, rule_identity=None):
     repo = rep.repo
     route = repo.mod(ROUTE)
@@ -2401,7 +2424,7 @@ def check_request_layers(rep, rule, rule_identity=None):
             raise AnalysisError('%s: expected one inject call' % q)
         if len(inj[0].args) < 2:
             raise AnalysisError('%s: inject call without the injectables argument' % q)
-        ls = layers_of_value(fi.node, inj[0].args[1])
+        ls = _coalesce_literals(layers_of_value(fi.node, inj[0].args[1]))
         i_lit = index_of(ls, lambda l: l.kind == 'literal')
         i_res = index_of(ls, lambda l: l.text == 'self.resources')
         i_kw = index_of(ls, lambda l: l.text == 'kwargs')
